@@ -34,6 +34,8 @@ class Prog:
         self.nglyphs = 0          # real glyphs in the input font
         self.classes = {}         # name -> list of glyph ids (value, in order)
         self.class_defs = {}      # name -> GDL definition text
+        self.class_trees = {}     # name -> definition tree (JSON-able, refs by class name)
+        self.class_stmts = None   # optional explicit list of glyph-table statements (overrides class_defs order)
         self.class_order = []
         self.tables = []          # list of (tabletype, [ [Rule,...] per pass ])
         self.font = None
@@ -45,8 +47,11 @@ class Prog:
     # ---- GDL text -------------------------------------------------------
     def gdl(self):
         out = ['#include "stddef.gdh"', self.prolog, "table(glyph)"]
-        for name in self.class_order:
-            out.append("%s = %s;" % (name, self.class_defs[name]))
+        if self.class_stmts is not None:
+            out += self.class_stmts
+        else:
+            for name in self.class_order:
+                out.append("%s = %s;" % (name, self.class_defs[name]))
         out += self.glyph_stmts
         out.append("endtable;")
         if self.feature_text:
@@ -97,8 +102,21 @@ class Prog:
                     rl.append({"items": items, "caret": r.caret, "opt": [list(o) for o in r.opt], "line": r.line})
                 passes.append({"index": pidx, "table": ttype, "rules": rl})
                 pidx += 1
+        def conv(t):
+            k = t["k"]
+            if k == "glyphs":
+                return t
+            if k == "ref":
+                return {"k": "ref", "c": idx[t["c"]]}
+            if k == "union":
+                return {"k": "union", "m": [conv(x) for x in t["m"]]}
+            return {"k": k, "a": conv(t["a"]), "b": conv(t["b"])}
+        defs = None
+        if self.class_trees:
+            defs = [conv(self.class_trees.get(nm, {"k": "glyphs", "g": self.classes[nm]})) for nm in names]
+            defs.append({"k": "glyphs", "g": list(range(n + 2))})
         return {"numGlyphs": n + 2, "numReal": n, "lb": n, "phantom": n + 1, "anyClass": any_id,
-                "classes": classes, "classNames": names + ["ANY"], "passes": passes}
+                "classes": classes, "classDefs": defs, "classNames": names + ["ANY"], "passes": passes}
 
 
 def rule_text(r):
@@ -200,6 +218,158 @@ def gen_classes(rng, prog, nclasses, lo, hi, maxsize=8):
         prog.classes[name] = val
         prog.class_defs[name] = glyph_list_text(val)
         prog.class_order.append(name)
+
+
+def _nodup(l):
+    return len(set(l)) == len(l)
+
+
+def gen_class_program(rng, size="small"):
+    """Family 'classes' (C04): definition trees with nesting, ranges, late '+=', '&=', '-=', duplicates across classes,
+    classes of size 0/1/many, and one-item substitution rules using them as selector/output classes."""
+    prog = Prog()
+    prog.nglyphs = rng.choice([16, 24, 40, 64])
+    font, glyphs, cmap = ttf.simple_font(prog.nglyphs)
+    prog.font, prog.cmap = font, cmap
+    lo, hi = 2, prog.nglyphs
+    stmts = []
+    trees = {}
+    order = []
+    frozen = set()   # classes that were the target of &= / -= (only referenced after that point)
+    referenced = set()
+
+    def depends(c, target, seen=None):
+        """does class c (transitively) reference target?"""
+        if target is None:
+            return False
+        seen = seen or set()
+        if c in seen:
+            return False
+        seen.add(c)
+
+        def refs(t):
+            k = t["k"]
+            if k == "glyphs":
+                return []
+            if k == "ref":
+                return [t["c"]]
+            if k == "union":
+                return [x for m in t["m"] for x in refs(m)]
+            return refs(t["a"]) + refs(t["b"])
+        for d in refs(trees.get(c, {"k": "glyphs", "g": []})):
+            if d == target or depends(d, target, seen):
+                return True
+        return False
+
+    def base_members(exclude=None):
+        """random member list: (text, tree, value)"""
+        parts, tr = [], []
+        for _ in range(rng.randint(1, 3)):
+            r = rng.random()
+            cands = [c for c in order if c != exclude and not depends(c, exclude)]
+            if r < 0.45 or not cands:
+                k = rng.randint(1, 5)
+                if rng.random() < 0.5:
+                    st = rng.randint(lo, hi - 1)
+                    gl = list(range(st, min(hi, st + k)))
+                else:
+                    gl = rng.sample(range(lo, hi), min(k, hi - lo))
+                parts.append(glyph_list_text(gl))
+                tr.append({"k": "glyphs", "g": gl})
+            else:
+                c = rng.choice(cands)
+                parts.append(c)
+                tr.append({"k": "ref", "c": c})
+                referenced.add(c)
+        return parts, tr
+
+    ncls = rng.randint(3, 7 if size == "small" else 14)
+    for k in range(ncls):
+        name = "c%d" % k
+        parts, tr = base_members()
+        text = parts[0] if len(parts) == 1 and rng.random() < 0.5 else "(%s)" % (rng.choice([" ", ", "]).join(parts))
+        stmts.append("%s = %s;" % (name, text))
+        trees[name] = {"k": "union", "m": tr}
+        order.append(name)
+        # follow-up operations
+        r = rng.random()
+        if r < 0.2:
+            parts, tr2 = base_members(exclude=name)
+            stmts.append("%s += %s;" % (name, "(%s)" % " ".join(parts) if len(parts) > 1 else parts[0]))
+            trees[name] = {"k": "union", "m": [trees[name]] + tr2}
+        elif r < 0.32 and len(order) > 1 and name not in referenced:
+            other = rng.choice([c for c in order if c != name])
+            stmts.append("%s &= %s;" % (name, other))
+            trees[name] = {"k": "inter", "a": trees[name], "b": {"k": "ref", "c": other}}
+            referenced.add(other)
+        elif r < 0.44 and len(order) > 1 and name not in referenced:
+            other = rng.choice([c for c in order if c != name])
+            stmts.append("%s -= %s;" % (name, other))
+            trees[name] = {"k": "diff", "a": trees[name], "b": {"k": "ref", "c": other}}
+            referenced.add(other)
+    # late += on an already referenced class (late binding)
+    if rng.random() < 0.3 and referenced:
+        c = rng.choice(sorted(referenced))
+        if trees[c]["k"] == "union":
+            gl = rng.sample(range(lo, hi), 1)
+            stmts.append("%s += %s;" % (c, glyph_list_text(gl)))
+            trees[c] = {"k": "union", "m": trees[c]["m"] + [{"k": "glyphs", "g": gl}]}
+
+    # python-side evaluation (cross-checked against the Lean ClassSem by the driver)
+    def ev(t, depth=0):
+        if depth > len(order) + 2:
+            return []
+        k = t["k"]
+        if k == "glyphs":
+            return list(t["g"])
+        if k == "ref":
+            return ev(trees[t["c"]], depth + 1)
+        if k == "union":
+            out = []
+            for m in t["m"]:
+                out += ev(m, depth)
+            return out
+        a, b = ev(t["a"], depth), ev(t["b"], depth)
+        if k == "inter":
+            return [g for g in a if g in b]
+        out = list(a)
+        for g in b:
+            if g in out:
+                out.remove(g)
+        return out
+    for nm in order:
+        prog.classes[nm] = ev(trees[nm])
+    prog.class_order = order
+    prog.class_trees = trees
+    prog.class_stmts = stmts
+    # rules: one-item substitutions selector -> output with matching sizes (or size-1 output)
+    rules = []
+    names = order
+    nd = [c for c in names if prog.classes[c] and _nodup(prog.classes[c])]
+    for _ in range(rng.randint(2, 6)):
+        if not nd:
+            break
+        sel = rng.choice(nd)
+        n = len(prog.classes[sel])
+        outs = [c for c in names if len(prog.classes[c]) in (1, n) and prog.classes[c]]
+        if not outs:
+            continue
+        out = rng.choice(outs)
+        items = []
+        if rng.random() < 0.3:
+            items.append(Item(cls=rng.choice(nd)))
+        if rng.random() < 0.25 and len(nd) > 1:
+            # selector on another item: cX cSel > @1 cOut$2 ... keep simple: context item then selector ref
+            pass
+        items.append(Item(cls=sel, mod=True, out=("cls", out, None)))
+        if rng.random() < 0.3:
+            items.append(Item(cls=rng.choice(nd)))
+        rules.append(Rule(items))
+    if not rules:
+        c = nd[0] if nd else names[0]
+        rules.append(Rule([Item(cls=c, mod=True, out=None)]))
+    prog.tables.append(("sub", [rules]))
+    return prog
 
 
 def gen_match_program(rng, nglyphs=None, npasses=None, size="small"):
